@@ -141,6 +141,63 @@ impl Acc {
     }
 }
 
+impl Acc {
+    /// lossless dump for passing a partial result from a segment process to its parent
+    pub fn to_json(&self) -> J {
+        let mm = |m: &Mismatch| json!({"idx": m.idx, "case": m.case, "expected": m.expected, "observed": m.observed, "payload": m.payload});
+        json!({
+            "evals": self.evals, "transitions": self.transitions, "validated": self.validated, "states": self.states,
+            "distinct": self.distinct.iter().collect::<Vec<_>>(),
+            "hist": self.hist, "n_violations": self.n_violations,
+            "violations": self.violations.iter().map(mm).collect::<Vec<_>>(),
+            "known": self.known.iter().map(|(k, (n, w))| json!([k, n, w.as_ref().map(mm)])).collect::<Vec<_>>(),
+            "excluded": self.excluded.iter().map(|(k, (n, e))| json!([k, n, e])).collect::<Vec<_>>(),
+            "samples": self.samples.iter().map(|(i, j)| json!([i, j])).collect::<Vec<_>>(),
+            "notes": self.notes, "counters": self.counters,
+            "viol_classes": self.viol_classes.iter().map(|(k, (n, e))| json!([k, n, e])).collect::<Vec<_>>(),
+        })
+    }
+    pub fn from_json(j: &J) -> Option<Acc> {
+        let mm = |m: &J| -> Option<Mismatch> {
+            Some(Mismatch { idx: m["idx"].as_u64()?, case: m["case"].as_str()?.to_string(), expected: m["expected"].as_str()?.to_string(), observed: m["observed"].as_str()?.to_string(), payload: m["payload"].clone() })
+        };
+        let mut a = Acc::new();
+        a.evals = j["evals"].as_u64()?;
+        a.transitions = j["transitions"].as_u64()?;
+        a.validated = j["validated"].as_u64()?;
+        a.states = j["states"].as_u64()?;
+        for d in j["distinct"].as_array()? {
+            a.distinct.insert(d.as_u64()?);
+        }
+        for (k, v) in j["hist"].as_object()? {
+            a.hist.insert(k.clone(), v.as_u64()?);
+        }
+        a.n_violations = j["n_violations"].as_u64()?;
+        for v in j["violations"].as_array()? {
+            a.violations.push(mm(v)?);
+        }
+        for e in j["known"].as_array()? {
+            a.known.insert(e[0].as_str()?.to_string(), (e[1].as_u64()?, if e[2].is_null() { None } else { Some(mm(&e[2])?) }));
+        }
+        for e in j["excluded"].as_array()? {
+            a.excluded.insert(e[0].as_str()?.to_string(), (e[1].as_u64()?, e[2].as_str()?.to_string()));
+        }
+        for e in j["samples"].as_array()? {
+            a.samples.push((e[0].as_u64()?, e[1].clone()));
+        }
+        for n in j["notes"].as_array()? {
+            a.notes.push(n.as_str()?.to_string());
+        }
+        for (k, v) in j["counters"].as_object()? {
+            a.counters.insert(k.clone(), v.as_u64()?);
+        }
+        for e in j["viol_classes"].as_array()? {
+            a.viol_classes.insert(e[0].as_str()?.to_string(), (e[1].as_u64()?, e[2].as_str()?.to_string()));
+        }
+        Some(a)
+    }
+}
+
 pub fn clip(s: &str, n: usize) -> String {
     if s.chars().count() <= n {
         s.to_string()
